@@ -105,6 +105,18 @@ func c11Spec(p c11Params, mapMonitor bool) *VsSpec {
 			vs.Idle()
 			rm := by.Rpc(&wire.Msg{Type: wire.Tstat, Tag: 6, Fid: 0})
 			byMidOK = rm != nil && rm.Type == wire.Rstat
+		case "versionwhilestalled":
+			// the client stopped reading, then renegotiates (Tversion is answered by the
+			// reader goroutine itself, which now waits for the blocked writer), then goes away
+			s.c.SrvEnd.StallOutgoing()
+			s.c.Send(p.Dotu, &wire.Msg{Type: wire.Tstat, Tag: 200, Fid: 0})
+			vs.Idle()
+			vv := "9P2000"
+			if p.Dotu {
+				vv = "9P2000.u"
+			}
+			s.c.Send(false, &wire.Msg{Type: wire.Tversion, Tag: wire.NOTAG, Msize: 256, Version: vv})
+			vs.Idle()
 		case "stalledwriter":
 			// the client stopped reading: the server's writer is blocked inside Write when the client goes away
 			s.c.SrvEnd.StallOutgoing()
@@ -370,7 +382,7 @@ func c11Scenarios(tier string) []Scenario {
 			out = append(out, c11Scenario(q))
 		}
 	}
-	closes := []string{"boundary", "midframe", "afterwrite", "stalledwriter", "halfclosed"}
+	closes := []string{"boundary", "midframe", "afterwrite", "stalledwriter", "halfclosed", "versionwhilestalled"}
 	parkedSets := [][]string{{}, {"clunk"}, {"walk"}, {"read"}, {"stat"}, {"remove"}, {"clunk", "read"}, {"walk", "write"}}
 	P := 2
 	if tier == "thorough" {
@@ -387,11 +399,16 @@ func c11Scenarios(tier string) []Scenario {
 			if len(ps) == 2 {
 				pp = P - 1
 			}
-			if (closes[i%5] == "stalledwriter" || closes[i%5] == "halfclosed") && pp > 1 {
+			if (closes[i%6] == "stalledwriter" || closes[i%6] == "halfclosed" || closes[i%6] == "versionwhilestalled") && pp > 1 {
 				pp-- // two more requests are in flight at the disconnect
 			}
-			add(c11Params{Prefix: prefix, Parked: ps, Close: closes[i%5], Maxpend: []int{0, 2}[i%2], Dotu: i%4 < 2, P: pp})
+			add(c11Params{Prefix: prefix, Parked: ps, Close: closes[i%6], Maxpend: []int{0, 2}[i%2], Dotu: i%4 < 2, P: pp})
 		}
+	}
+	// every way of going away while the writer is blocked, with the unbuffered reply queue too
+	for i, cl := range []string{"stalledwriter", "halfclosed", "versionwhilestalled"} {
+		add(c11Params{Prefix: 3, Parked: []string{}, Close: cl, Maxpend: 0, Dotu: i%2 == 0, P: 1})
+		add(c11Params{Prefix: 5, Parked: []string{"read"}, Close: cl, Maxpend: 0, Dotu: i%2 == 1, P: 1})
 	}
 	if tier == "thorough" {
 		for _, cl := range closes {
@@ -408,7 +425,7 @@ func c11Scenarios(tier string) []Scenario {
 func init() {
 	register(&Property{ID: "C11", Level: "model_checking",
 		Technique: "stateless model checking of the real server under a controlled scheduler; leaks decided at the final quiescent state",
-		Rule:      "every schedule with at most P preemptions from the disconnect onwards, per scenario: every prefix of a history that leaves fids attached/walked/open/created/clunked x set of requests parked in the implementation x every release order x disconnect at a frame boundary / mid-frame / right after a request / while the server's writer is blocked inside Write (client stopped reading; also after the client half-closed) x Maxpend 0/2 x dialect, with a bystander connection; plus sequential histories in which a request is held on a fid across its clunk / remove and the re-binding of its number, then completes, then the client disconnects; 9 histories on the real Ufs after which no descriptor may refer into the exported tree; distinct = distinct per-object operation orders",
+		Rule:      "every schedule with at most P preemptions from the disconnect onwards, per scenario: every prefix of a history that leaves fids attached/walked/open/created/clunked x set of requests parked in the implementation x every release order x disconnect at a frame boundary / mid-frame / right after a request / while the server's writer is blocked inside Write (client stopped reading; also after the client half-closed, or sent a Tversion meanwhile) x Maxpend 0/2 x dialect, with a bystander connection; plus sequential histories in which a request is held on a fid across its clunk / remove and the re-binding of its number, then completes, then the client disconnects; 9 histories on the real Ufs after which no descriptor may refer into the exported tree; distinct = distinct per-object operation orders",
 		Assumptions: []string{"code between two synchronisation operations is atomic (race-free executions)", "a client disconnect is the client end closing: the server reads EOF after draining, its writes fail", "the Ufs file-descriptor clause is checked by sequential histories on the real Ufs with /proc/self/fd as the oracle (a garbage collection in between could only hide a leak, never invent one)"},
 		Scenarios:   c11Scenarios, QuickS: 180, ThoroughS: 1500})
 }
